@@ -5,7 +5,7 @@ rtol 1e-12 when flooring); must validate with box coordinates; checkpoint tree h
 and after; poison allocator on the np.empty offset/min/max tables."""
 import os, random, hashlib
 import numpy as np
-from .. import common, gen, chkgen, refparse, refmodel, pools, poison
+from .. import common, gen, chkgen, refparse, refmodel, pools, poison, workload
 
 ID = "C17"
 LEVEL = "exploration"
@@ -40,7 +40,12 @@ def cases(tier, seed):
             g["header_int"] = [1, 0, 7][(i // 4) % 3]
         if i % 7 == 4:      # header tail without the coordinate-system lines
             g["no_coord"] = True
-        cs.append({"gen": g, "sel_seed": seed * 79 + i})
+        c = {"gen": g, "sel_seed": seed * 79 + i}
+        if i % 8 == 6:      # data files kept in a store under other names and linked into the level directories
+            c["store"] = ["files", "files+levels"][(i // 8) % 2]
+        if i % 8 == 1:      # the checkpoint is reached through `<symlinked directory>/../<name>`
+            c["reach"] = True
+        cs.append(c)
     return cs
 
 
@@ -162,6 +167,12 @@ def run_one(case, work, rec, gparams, chkname, nconf):
     g = dict(gparams)
     chk = os.path.join(work, chkname)
     m = chkgen.gen_chk(path=chk, **g)
+    if case.get("store"):
+        workload.to_store(chk, level_links="levels" in case["store"])
+        rec.count("checkpoint_with_linked_data_files")
+    if case.get("reach"):
+        chk = workload.reach_link_dotdot(work, chk)
+        rec.count("checkpoint_reached_through_link_dotdot")
     digest = common.sha(g)
     species = SPECIES[:m.nspecies]
     integer_time = float(m.time) % 1 == 0
@@ -188,6 +199,8 @@ def run_one(case, work, rec, gparams, chkname, nconf):
     configs.append((True, False, True, "list", "default"))
     configs.append((True, True, False, "refY", "default"))
     rng.shuffle(configs)
+    if case.get("reach"):      # "beside the checkpoint" has two readings for such a path: explicit outputs only
+        configs = [c for c in configs if c[4] == "explicit"]
     h0 = tree_hash(chk)
     if nconf < 8:
         configs = [c for c in configs if c[2]] + [c for c in configs if not c[2]]     # flooring first
